@@ -9,7 +9,7 @@ from __future__ import annotations
 from ..engine.srcmodel import stmt_text
 from ..engine.report import RuleResult
 from .common import finding
-from .rounding import builtin_round_sites, bound_symbols, half_up_helper
+from .rounding import builtin_round_sites, bound_symbols, half_up_helper, helper_problem
 
 
 def r06_1(ctx, counts: dict[str, int]) -> RuleResult:
@@ -22,7 +22,14 @@ def r06_1(ctx, counts: dict[str, int]) -> RuleResult:
         'towards positive infinity, which Python\'s half-to-even round() does not; the '
         'repository\'s half-up helper (helpers.round_number, ROUND_HALF_UP/ROUND_HALF_DOWN by '
         'sign, re-checked) is the accepted alternative.')
-    half_up_helper(model)
+    hh = half_up_helper(model, strict=False)
+    prob = helper_problem(hh)
+    if prob:
+        res.fail(finding('R06.1', hh, hh.node, 'half-up helper',
+                         prob + ': substring, subsequence and fn:round all inherit the rounding '
+                                'mode of this helper'))
+    else:
+        res.ok()
     bound = bound_symbols(ctx.reg)
     sites = builtin_round_sites(model)
     counts['builtin_round_sites'] = len(sites)
@@ -60,7 +67,7 @@ def r06_2(ctx, counts: dict[str, int]) -> RuleResult:
         'quantize without a rounding argument (pure rescale of an already rounded value) is '
         'ignored.')
     bound = bound_symbols(ctx.reg)
-    funcs = [f for f, s in bound.items() if 'round' in s] + [half_up_helper(model)]
+    funcs = [f for f, s in bound.items() if 'round' in s] + [half_up_helper(model, strict=False)]
     n = 0
     for f in funcs:
         cfg = CFG(f.node, calls_may_raise)
